@@ -19,7 +19,9 @@ type LoopPanic struct {
 	Where string // innermost frames of the repository's own code
 }
 
-func (p LoopPanic) String() string { return fmt.Sprintf("%s loop panicked: %s (%s)", p.Loop, p.Value, p.Where) }
+func (p LoopPanic) String() string {
+	return fmt.Sprintf("%s loop panicked: %s (%s)", p.Loop, p.Value, p.Where)
+}
 
 // GuardedFullL2 is a FullL2 whose loops are wrapped: a panic below a loop is recorded in Panics and the process is
 // marked as dead (every other loop ends at its next call into a double), exactly what an unrecovered panic does.
